@@ -11,6 +11,7 @@ import MptModel.Impl.Reply
 import MptModel.Spec.Reply
 import MptModel.Lemmas.ReplyId
 import MptModel.Lemmas.ReplyCtx
+import MptModel.Lemmas.ReplyStream
 namespace Mpt.C12
 open Mpt Mpt.Reply Mpt.ReplySpec
 
@@ -149,5 +150,43 @@ theorem arm_pure (c : Ctx) (bytes : List Byte) :
   by_cases h : bytes.length > c.max
   · simp [h]; omega
   · simp [h]
+
+/- ---------------------------------------------------------------- stream-input variant -/
+
+/-- **stream input (mptio/stream/stream_input.c)**: for every incoming message on an idle stream input
+    and every handler behaviour (any list of reply / NULL reply / defer attempts and return values),
+    the frames handed to the stream are exactly what the spec names: no frame when no reply is due
+    (no id header, id all zero, message is itself a reply, header incomplete), otherwise ONE frame made
+    of the request id with the reply mark followed by the handler's first reply — or the answer header
+    `01 <code>` when the handler did not reply (default reply); the input is idle again afterwards. -/
+theorem stream_one_reply (s : StreamIn.SIn) (hs : s.rdlen = 0) (data : List Byte) (acts : List StreamIn.Act) :
+    (StreamIn.request s data acts).frames =
+      (streamFrame s.idlen data (StreamIn.firstReply acts) (StreamIn.codeByte (StreamIn.lastRet acts 0))).toList ∧
+    (StreamIn.request s data acts).s.rdlen = 0 :=
+  StreamIn.request_frames s hs data acts
+example : (StreamIn.request ⟨2, 0, []⟩ [0, 5, 0x78] [.reply [0x41], .reply [0x42], .ret (-4)]).frames = [[0x80, 5, 0x41]] ∧
+    (StreamIn.request ⟨2, 0, []⟩ [0, 6, 0x79] [.defer, .ret (-4)]).frames = [[0x80, 6, 1, 0xfc]] ∧
+    (StreamIn.request ⟨2, 0, []⟩ [0x80, 6, 0x79] [.reply [1]]).frames = [] := by decide
+
+/-- at most one frame per request, and it starts with the marked request id -/
+theorem stream_at_most_once (s : StreamIn.SIn) (hs : s.rdlen = 0) (data : List Byte) (acts : List StreamIn.Act) :
+    (StreamIn.request s data acts).frames.length ≤ 1 ∧
+    ∀ f ∈ (StreamIn.request s data acts).frames, f.take s.idlen = mark (data.take s.idlen) := by
+  rw [(stream_one_reply s hs data acts).1]
+  unfold streamFrame
+  simp only []
+  split
+  · simp
+  · rename_i h
+    have hlen : (data.take s.idlen).length = s.idlen := by
+      have : ¬ data.length < s.idlen := fun hl => h (Or.inr (Or.inl hl))
+      simp; omega
+    refine ⟨by simp, ?_⟩
+    intro f hf
+    simp at hf
+    subst hf
+    rw [List.take_append_of_le_length (by rw [StreamIn.mark_length, hlen]; exact Nat.le_refl _)]
+    apply List.take_of_length_le
+    rw [StreamIn.mark_length, hlen]; exact Nat.le_refl _
 
 end Mpt.C12
